@@ -1379,6 +1379,40 @@ def interplay_docs() -> list[tuple[str, dict]]:
     return out
 
 
+def union_model_docs() -> list[tuple[str, dict]]:
+    """Models whose properties are unions of every pair / a few triples of member kinds (string / integer enums, models,
+    arrays, formatted strings, scalars), required and optional, with and without null: the per-member type guards of
+    the union decoder and encoder differ per kind and per enum style."""
+    R = lambda n: {"$ref": f"#/components/schemas/{n}"}  # noqa: E731
+    kinds = {"ma": R("Ua"), "mb": R("Ub"), "lm": {"type": "array", "items": R("Ua")}, "ls": {"type": "array", "items": {"type": "string"}}, "dt": {"type": "string", "format": "date-time"}, "i": {"type": "integer"},
+             "b": {"type": "boolean"}, "e": R("Ue"), "u": {"type": "string", "format": "uuid"}, "ie": R("Uie"), "iei": {"type": "integer", "enum": [7, 8]}, "ei": {"type": "string", "enum": ["p", "q"]}, "s": {"type": "string"}}
+    combos = [("ie", "ma"), ("ma", "ie"), ("ie", "e"), ("e", "ie"), ("ie", "mb", "ma"), ("iei", "ma"), ("ei", "ma"), ("ei", "iei"), ("ie", "lm"), ("e", "lm"), ("ie", "ls"), ("ma", "lm"), ("lm", "i"), ("dt", "i"), ("i", "b"), ("e", "i"),
+              ("u", "lm"), ("ma", "mb"), ("mb", "ma"), ("ie", "dt"), ("ie", "s"), ("e", "ma", "i"), ("ie", "e", "ma")]
+    out = []
+    for version in ("3.0.3", "3.1.0"):
+        for kw in ("oneOf", "anyOf"):
+            d = base_doc(version, f"Union models {kw}")
+            S = {"Ua": {"type": "object", "required": ["a"], "properties": {"a": {"type": "string"}, "n": {"type": "integer"}}, "additionalProperties": False},
+                 "Ub": {"type": "object", "required": ["b"], "properties": {"b": {"type": "integer"}, "when": {"type": "string", "format": "date"}}, "additionalProperties": False},
+                 "Ue": {"type": "string", "enum": ["x", "y"]}, "Uie": {"type": "integer", "enum": [10, 20, 0]}}
+            for ci, combo in enumerate(combos):
+                props, req = {}, []
+                for nul in (False, True):
+                    for required in (False, True):
+                        members = [clone(kinds[k]) for k in combo]
+                        sch = {kw: members + ([{"type": "null"}] if nul and version.startswith("3.1") else [])}
+                        if nul and not version.startswith("3.1"):
+                            sch["nullable"] = True
+                        pn = f"p{'n' if nul else ''}{'r' if required else 'o'}"
+                        props[pn] = sch
+                        if required:
+                            req.append(pn)
+                S["H" + "".join(k.capitalize() for k in combo)] = {"type": "object", "properties": props, "required": req}
+            d["components"]["schemas"] = S
+            out.append((f"union_models:{kw}:{version}", d))
+    return out
+
+
 def union_io_docs() -> list[tuple[str, dict]]:
     """Operations whose JSON response / JSON request body / query parameter is a union: every ordered pair (and a few
     triples) of member kinds that first-match decoding can tell apart, under oneOf and anyOf, with and without null.
